@@ -748,6 +748,62 @@ def corpus_ref_struct(R, r):
     R.ctxs += [ctx] * len(hc.ops)
 
 
+_rd_uid = itertools.count()
+
+
+def corpus_ref_defaults(R, r):
+    """reference fields that DECLARE a non-null default referent (oracle only; the model has no declared defaults): an explicit
+    None is the null reference (C01/C08), and a copy of an object whose references were set to null has null references, in the
+    same buffer, another buffer and another context, also nested in a struct and in an array (C09)"""
+    xo = common.import_xobjects()
+    uid = next(_rd_uid)
+    ctx = {"component": "heap", "corpus": "ref-field-with-declared-default"}
+    Target = type(f"RDT{uid}", (xo.Struct,), {"x": xo.Float64, "v": xo.Float64[:]})
+    Holder = type(f"RDH{uid}", (xo.Struct,), {
+        "a": xo.Float64,
+        "arr": xo.Field(xo.Ref[xo.Float64[:]], default=[1.0, 2.0, 3.0]),
+        "tgt": xo.Field(xo.Ref[Target], default=Target(x=7, v=[7, 7])),
+        "plain": xo.Ref[Target]})
+    Outer = type(f"RDO{uid}", (xo.Struct,), {"k": xo.Int64, "h": Holder})
+    HArr = Holder[:]
+
+    def describe(h):
+        arr = None if h.arr is None else [float(x) for x in h.arr.to_nparray()]
+        tgt = None if h.tgt is None else (float(h.tgt.x), [float(x) for x in h.tgt.v.to_nparray()])
+        plain = None if h.plain is None else (float(h.plain.x), [float(x) for x in h.plain.v.to_nparray()])
+        return (float(h.a), arr, tgt, plain)
+
+    try:
+        c1 = xo.ContextCpu()
+        buf = c1.new_buffer(r.choice([512, 4096]))
+        t0 = Target(x=5, v=[5, 6], _buffer=buf)
+        e = Holder(a=2.5, arr=None, tgt=None, plain=None, _buffer=buf)
+        if describe(e) != (2.5, None, None, None):
+            R.fail("C08:explicit-none-not-null", f"Holder(arr=None, tgt=None, plain=None) with declared default referents reads {describe(e)}", ctx)
+        src = Holder(a=1.5, plain=t0, _buffer=buf)
+        if describe(src) != (1.5, [1.0, 2.0, 3.0], (7.0, [7.0, 7.0]), (5.0, [5.0, 6.0])):
+            R.fail("C01:declared-default-not-used", f"Holder(a=1.5, plain=t0) reads {describe(src)}", ctx)
+        which = r.choice([("arr",), ("tgt",), ("arr", "tgt")])
+        for f in which:
+            setattr(src, f, None)
+        want = describe(src)
+        if any(getattr(src, f) is not None for f in which):
+            R.fail("C08:null-not-none", f"{which} set to None read back {want}", ctx)
+        places = [("same buffer", dict(_buffer=buf)), ("other buffer, same context", dict(_buffer=c1.new_buffer(1024))),
+                  ("other context", dict(_context=xo.ContextCpu()))]
+        for where, kw in places:
+            forms = [("direct", lambda: describe(Holder(src, **kw))),
+                     ("nested in a struct", lambda: describe(Outer(k=1, h=src, **kw).h)),
+                     ("array item", lambda: describe(HArr([src, src], **kw)[1]))]
+            for form, fn in forms:
+                got = fn()
+                R.tags["corpus.ref-defaults.copy"] += 1
+                if got != want:
+                    R.fail("C09:copy-not-equal", f"struct with reference fields declaring default referents, {which} set to null: copy ({form}, {where}) reads {got}, the source holds {want}", dict(ctx, where=where, form=form))
+    except Exception as ex:
+        R.fail("C09:copy-raises:" + type(ex).__name__, f"reference fields with declared defaults: {type(ex).__name__}: {str(ex)[:160]}", ctx)
+
+
 def run_all(tier, seed, n=None):
     r = random.Random(seed * 999331 + 29)
     R = L.Run()
@@ -755,6 +811,7 @@ def run_all(tier, seed, n=None):
     misuse_cases(R, r)
     corpus_cases(R, r)
     corpus_ref_struct(R, r)
+    corpus_ref_defaults(R, r)
     for _ in range(n):
         run_case(R, r)
     cases, cur = [], []
